@@ -116,6 +116,30 @@ bool FilterUtility::EvaluateFilter(ScriptFrame& frame, Expression *filter,
 	return Convert::ToBool(filter->Evaluate(frame));
 }
 
+/**
+ * EvaluateFilter() sets these names in the frame for every target, overwriting a filter_vars entry of the same name.
+ * Such an entry is not a constant, so the filter must be evaluated instead of being answered by name lookup.
+ */
+static bool FilterVarsCollideWithTarget(const Dictionary::Ptr& filterVars, const String& type, const String& variableName)
+{
+	if (!filterVars)
+		return false;
+
+	Type::Ptr ptype = Type::GetByName(type);
+
+	if (filterVars->Contains("obj") || filterVars->Contains(variableName.IsEmpty() ? ptype->GetName().ToLower() : variableName))
+		return true;
+
+	for (int fid = 0; fid < ptype->GetFieldCount(); fid++) {
+		Field field = ptype->GetFieldInfo(fid);
+
+		if ((field.Attributes & FANavigation) && filterVars->Contains(field.NavigationName ? field.NavigationName : field.Name))
+			return true;
+	}
+
+	return false;
+}
+
 static void FilteredAddTarget(ScriptFrame& permissionFrame, Expression *permissionFilter,
 	ScriptFrame& frame, Expression *ufilter, std::vector<Value>& result, const String& variableName, const Object::Ptr& target)
 {
@@ -276,7 +300,7 @@ std::vector<Value> FilterUtility::GetFilterTargets(const QueryDescription& qd, c
 			bool targeted = false;
 			std::vector<ConfigObject::Ptr> targets;
 
-			if (dynamic_cast<ConfigObjectTargetProvider*>(provider.get())) {
+			if (dynamic_cast<ConfigObjectTargetProvider*>(provider.get()) && !FilterVarsCollideWithTarget(filter_vars, type, variableName)) {
 				auto dict (dynamic_cast<DictExpression*>(ufilter.get()));
 
 				if (dict) {
